@@ -5,6 +5,7 @@ package fragx
 
 import (
 	"bytes"
+	"context"
 	"encoding/hex"
 	"fmt"
 	"os"
@@ -16,17 +17,24 @@ import (
 	"github.com/pilosa/pilosa"
 	"github.com/pilosa/pilosa/roaring"
 	"verifharness/vh"
+	"verifharness/vh/srv"
 )
 
 const SW = pilosa.ShardWidth
 const HBS = pilosa.HashBlockSize
 
 type slot struct {
-	f     *pilosa.VerifC07Fragment
-	fld   *pilosa.Field
-	own   bool // fragment opened by us (not owned by a Field)
-	shard uint64
-	kind  string
+	f   *pilosa.VerifC07Fragment
+	fld *pilosa.Field
+	// field owned by a real Holder (hdir = its data dir) or by an in-process server: the fragment
+	// is whatever the holder opened (view.openFragments after a reopen) and is never created
+	// through the hook.
+	holder *pilosa.Holder
+	hdir   string
+	server *srv.Server
+	own    bool // fragment opened by us (not owned by a Field)
+	shard  uint64
+	kind   string
 	// every content each block has had at an operation boundary of this case: hex(hash) -> "[p p ..]"
 	hist map[int]map[string]string
 }
@@ -50,6 +58,14 @@ func (e *Engine) reset() {
 }
 
 func (s *slot) close() {
+	if s.server != nil {
+		s.server.Stop()
+		return
+	}
+	if s.holder != nil {
+		s.holder.Close()
+		return
+	}
 	if s.fld != nil {
 		s.fld.Close()
 	} else if s.f != nil && s.own {
@@ -240,6 +256,126 @@ func roaringData(rows, cols []uint64) []byte {
 	return buf.Bytes()
 }
 
+func fieldOption(kind string) (pilosa.FieldOption, bool) {
+	switch kind {
+	case "mutex":
+		return pilosa.OptFieldTypeMutex(pilosa.CacheTypeRanked, 1000), true
+	case "bool":
+		return pilosa.OptFieldTypeBool(), true
+	case "set":
+		return pilosa.OptFieldTypeSet(pilosa.CacheTypeRanked, 1000), true
+	}
+	return nil, false
+}
+
+func openHolder(dir string) (*pilosa.Holder, error) {
+	h := pilosa.NewHolder()
+	h.Path = dir
+	if err := h.Open(); err != nil {
+		return nil, err
+	}
+	return h, nil
+}
+
+// owned reports whether the slot's fragment belongs to a holder / server.
+func (s *slot) owned() bool { return s.holder != nil || s.server != nil }
+
+// resolve looks the field and its standard-view fragment up again (after a reopen they are new
+// objects; before the first write the fragment does not exist).
+func (s *slot) resolve() {
+	if !s.owned() {
+		return
+	}
+	h := s.holder
+	if s.server != nil {
+		h = s.server.Server.Holder()
+	}
+	s.fld = h.Field("i", "f")
+	s.f = nil
+	if s.fld != nil {
+		s.f = pilosa.VerifC07FieldFragment(s.fld, 0)
+	}
+}
+
+// reopen closes and reopens whatever owns the fragment.
+func (s *slot) reopen() error {
+	switch {
+	case s.server != nil:
+		dir := s.server.Dir
+		if err := s.server.Command.Close(); err != nil {
+			return err
+		}
+		s.server = srv.StartAt(dir, 1)
+	case s.holder != nil:
+		if err := s.holder.Close(); err != nil {
+			return err
+		}
+		h, err := openHolder(s.hdir)
+		if err != nil {
+			return err
+		}
+		s.holder = h
+	case s.fld != nil:
+		if err := s.fld.Close(); err != nil {
+			return err
+		}
+		if err := s.fld.Open(); err != nil {
+			return err
+		}
+		s.f = pilosa.VerifC07FieldFragment(s.fld, 0)
+		if s.f == nil {
+			f, err := pilosa.VerifC07FieldStandardFragment(s.fld, 0)
+			if err != nil {
+				return err
+			}
+			s.f = f
+		}
+	default:
+		return s.f.Reopen()
+	}
+	s.resolve()
+	return nil
+}
+
+func pqlRow(kind string, row uint64) string {
+	if kind == "bool" {
+		if row == 1 {
+			return "true"
+		}
+		return "false"
+	}
+	return strconv.FormatUint(row, 10)
+}
+
+func (s *slot) pqlBool(q string) string {
+	res, err := s.server.Query("i", q, nil)
+	if err != nil {
+		return showErr(err)
+	}
+	b, ok := res[0].(bool)
+	if !ok {
+		return "err:other"
+	}
+	return strconv.FormatBool(b)
+}
+
+// emptyRead is the answer of a read on a field that has no fragment yet.
+func emptyRead(op string) (string, bool) {
+	switch op {
+	case "row", "rows", "rowscol":
+		return "[]", true
+	case "bit", "clearrow", "fclearrow":
+		return "false", true
+	case "bits", "blockdata", "blocks":
+		return "", true
+	case "mget":
+		return "none", true
+	case "value":
+		return "0 false", true
+	}
+	return "", false
+}
+
 func (e *Engine) line(l string) string {
 	ws := strings.Fields(l)
 	if len(ws) == 0 {
@@ -334,6 +470,43 @@ func (e *Engine) line(l string) string {
 		vh.Count("openfield-" + ws[2])
 		return "ok"
 	}
+	if (ws[0] == "openholder" || ws[0] == "openserver") && len(ws) == 3 && (ws[1] == "a" || ws[1] == "b") {
+		opt, ok := fieldOption(ws[2])
+		if !ok {
+			return "bad-op"
+		}
+		if old := e.slots[ws[1]]; old != nil {
+			old.close()
+		}
+		sl := &slot{shard: 0, kind: ws[2], hist: map[int]map[string]string{}}
+		var h *pilosa.Holder
+		if ws[0] == "openholder" {
+			sl.hdir = e.tmp()
+			var err error
+			if h, err = openHolder(sl.hdir); err != nil {
+				return "err:open"
+			}
+			sl.holder = h
+		} else {
+			dir := e.tmp()
+			if err := os.MkdirAll(dir, 0o755); err != nil {
+				return "err:open"
+			}
+			sl.server = srv.StartAt(dir, 1)
+			h = sl.server.Server.Holder()
+		}
+		e.slots[ws[1]] = sl
+		idx, err := h.CreateIndex("i", pilosa.IndexOptions{})
+		if err != nil {
+			return "err:open"
+		}
+		if _, err := idx.CreateField("f", opt); err != nil {
+			return "err:open"
+		}
+		sl.resolve()
+		vh.Count(ws[0] + "-" + ws[2])
+		return "ok"
+	}
 	if len(ws) < 2 || (ws[1] != "a" && ws[1] != "b") {
 		return "bad-op"
 	}
@@ -344,6 +517,26 @@ func (e *Engine) line(l string) string {
 		return "err:closed"
 	}
 	op, a := ws[0], ws[2:]
+	if op == "reopen" && len(a) == 0 {
+		vh.Count("reopen")
+		return showOK(s.reopen())
+	}
+	if s.owned() {
+		s.resolve()
+		if s.fld == nil {
+			return "err:nofield"
+		}
+		if s.f == nil {
+			if out, ok := emptyRead(op); ok {
+				return out
+			}
+			switch op {
+			case "fset", "fclear", "fimport":
+			default:
+				return "err:nofrag"
+			}
+		}
+	}
 	nums := func(n int) bool {
 		if len(a) != n {
 			return false
@@ -477,18 +670,34 @@ func (e *Engine) line(l string) string {
 				out = strconv.FormatUint(row, 10)
 			}
 		}
-	case "fset", "fclear", "frow", "fimport":
+	case "fset", "fclear", "frow", "fimport", "fclearrow":
 		if s.fld == nil {
 			return "err:nofield"
 		}
 		switch op {
 		case "fset":
 			if nums(2) {
-				out, write = showChanged(s.fld.SetBit(u(a[0]), u(a[1]), nil)), true
+				if s.server != nil {
+					out, write = s.pqlBool(fmt.Sprintf("Set(%d, f=%s)", u(a[1]), pqlRow(s.kind, u(a[0])))), true
+				} else {
+					out, write = showChanged(s.fld.SetBit(u(a[0]), u(a[1]), nil)), true
+				}
 			}
 		case "fclear":
 			if nums(2) {
-				out, write = showChanged(s.fld.ClearBit(u(a[0]), u(a[1]))), true
+				if s.server != nil {
+					out, write = s.pqlBool(fmt.Sprintf("Clear(%d, f=%s)", u(a[1]), pqlRow(s.kind, u(a[0])))), true
+				} else {
+					out, write = showChanged(s.fld.ClearBit(u(a[0]), u(a[1]))), true
+				}
+			}
+		case "fclearrow":
+			if nums(1) {
+				if s.server != nil {
+					out, write = s.pqlBool(fmt.Sprintf("ClearRow(f=%s)", pqlRow(s.kind, u(a[0])))), true
+				} else {
+					out, write = showChanged(s.f.ClearRow(u(a[0]))), true
+				}
 			}
 		case "frow":
 			if nums(1) {
@@ -506,13 +715,24 @@ func (e *Engine) line(l string) string {
 					if a[0] == "1" {
 						opts = append(opts, pilosa.OptImportOptionsClear(true))
 					}
-					out, write = showOK(s.fld.Import(rows, cols, nil, opts...)), true
+					if s.server != nil {
+						out = showOK(s.server.API.Import(context.Background(), &pilosa.ImportRequest{
+							Index: "i", Field: "f", Shard: 0, RowIDs: rows, ColumnIDs: cols}, opts...))
+					} else {
+						out = showOK(s.fld.Import(rows, cols, nil, opts...))
+					}
+					write = true
 				}
 			}
 		}
 	}
 	if write {
-		s.record()
+		if s.owned() {
+			s.resolve()
+		}
+		if s.f != nil {
+			s.record()
+		}
 	}
 	return out
 }
